@@ -46,6 +46,7 @@ type Result struct {
 	Sample      interface{}      `json:"sample,omitempty"`
 	Log         []string         `json:"log,omitempty"` // event log (determinism self-test)
 	Executed    *Case            `json:"executed,omitempty"` // as-executed case (realised schedule) for violations
+	More        []*Result        `json:"more,omitempty"`     // further violations of other classes found in the same run
 }
 
 func (r *Result) Count(name string, n int64) {
